@@ -60,11 +60,130 @@ IX_DERIVE = ['Index(ix)', 'copy', 'IndexGO(ix)', 'iloc', 'relabel', 'values', 'u
 
 def nontrivial(c):
     kinds = [s[0] for s in c['steps']]
+    if c['k'] == 'ih3':
+        return len(kinds) >= 2
     return any(k.endswith(('dup', 'len', 'badlen', 'unaligned')) for k in kinds) or \
         any(a in DERIVE + IX_DERIVE and any(b in GROW + IX_GROW for b in kinds[i + 1:]) for i, a in enumerate(kinds))
 
 
+IH3_ROUTES = ['from_product', 'from_labels', 'from_tree', 'product_copy', 'frame_columns_product', 'frame_columns_labels']
+
+
+def ih3_cases(rng, count):
+    """Depth-3 grow-only hierarchies used DIRECTLY as built (from_product builds one node object per depth and relies on the
+    constructor to un-share it), bare or as the columns of a FrameGO, grown under the LAST outer label, under a new outer label,
+    with duplicates and with labels that are not in tree order; the reference is a plain list of tuples."""
+    for _ in range(count):
+        lv = [['a', 'b', 'c'][:rng.randint(2, 3)], [1, 2, 3][:rng.randint(1, 3)], ['x', 'y'][:rng.randint(1, 2)]]
+        steps = []
+        for _ in range(rng.randint(2, 6)):
+            steps.append([rng.choice(['last_leaf', 'last_leaf', 'last_mid', 'new_outer', 'dup', 'closed', 'read', 'extend']), rng.randint(0, 10 ** 6)])
+        yield {'k': 'ih3', 'levels': lv, 'route': rng.choice(IH3_ROUTES), 'steps': steps}
+
+
+def run_ih3_history(ctx, c):
+    import itertools
+    import static_frame as sf
+    fails = []
+    lv = c['levels']
+    ref = [tuple(t) for t in itertools.product(*lv)]
+    route = c['route']
+    ctx.count('ih3_route_' + route)
+    frame = None
+    if route in ('from_product', 'product_copy'):
+        ih = sf.IndexHierarchyGO.from_product(*lv)
+        if route == 'product_copy':
+            ih = ih.copy()
+    elif route == 'from_labels':
+        ih = sf.IndexHierarchyGO.from_labels(ref)
+    elif route == 'from_tree':
+        ih = sf.IndexHierarchyGO.from_tree({a: {b: tuple(lv[2]) for b in lv[1]} for a in lv[0]})
+    else:
+        ctor = (lambda a: sf.IndexHierarchyGO.from_product(*lv)) if route == 'frame_columns_product' else (lambda a: sf.IndexHierarchyGO.from_labels(ref))
+        frame = sf.FrameGO(np.arange(2 * len(ref)).reshape(2, len(ref)), columns=None, columns_constructor=ctor)
+        ih = frame.columns
+    fresh_mid, fresh_leaf = [7, 8, 9], ['p', 'q', 'r', 's']
+
+    def check(where):
+        got = [tuple(t) for t in ih]
+        if got != ref:
+            fails.append(Failure('oracle', f'ih3 {route} {where}: labels {got} != expected {ref}', c))
+            return False
+        if len(ih) != len(ref) or ih.values.shape != (len(ref), 3):
+            fails.append(Failure('oracle', f'ih3 {route} {where}: len {len(ih)} / values {ih.values.shape} for {len(ref)} labels', c))
+            return False
+        for i, t in enumerate(ref):
+            if t not in ih or ih.loc_to_iloc(t) != i:
+                fails.append(Failure('oracle', f'ih3 {route} {where}: label {t} is not found at position {i}', c))
+                return False
+        seen = [sorted({t[d] for t in ref}, key=str) for d in range(3)]
+        for t in itertools.product(*seen):
+            if t not in ref and t in ih:
+                fails.append(Failure('oracle', f'ih3 {route} {where}: label {t} is reported as held but was never added', c))
+                return False
+        if frame is not None and (frame.shape[1] != len(ref) or len(frame.columns) != frame._blocks._shape[1]):
+            fails.append(Failure('oracle', f'ih3 {route} {where}: {len(frame.columns)} column labels for {frame._blocks._shape[1]} data columns', c))
+            return False
+        return True
+
+    for si, (op, r) in enumerate(c['steps']):
+        ctx.count('ih3_step_' + op)
+        last = ref[-1]
+        key, valid = None, True
+        if op == 'last_leaf':
+            key = (last[0], last[1], fresh_leaf[r % 4])
+        elif op == 'last_mid':
+            key = (last[0], fresh_mid[r % 3], lv[2][0])
+        elif op == 'new_outer':
+            key = (['d', 'e', 'f', 'g'][r % 4], 1, 'x')
+        elif op == 'dup':
+            key, valid = ref[r % len(ref)], False
+        elif op == 'closed':
+            key, valid = (ref[0][0], ref[0][1], 'zz'), ref[0][:2] == last[:2]
+        elif op == 'read':
+            check(f'step {si} read')
+            continue
+        if op == 'extend':
+            outer = [o for o in ['h', 'i', 'j', 'k'] if all(t[0] != o for t in ref)]
+            if not outer:
+                continue
+            add = [(outer[0], 1, 'x'), (outer[0], 1, 'y'), (outer[0], 2, 'x')]
+            try:
+                if frame is not None:
+                    frame.extend(sf.Frame(np.zeros((2, 3)), columns=sf.IndexHierarchy.from_labels(add)))
+                else:
+                    ih.extend(sf.IndexHierarchy.from_labels(add))
+                ref.extend(add)
+            except Exception as ex:
+                fails.append(Failure('oracle', f'ih3 {route} step {si}: extend by new outer labels raised {type(ex).__name__}: {ex}', c))
+                break
+        else:
+            valid = valid and key not in ref
+            try:
+                if frame is not None:
+                    frame[key] = np.array([si, -si])
+                else:
+                    ih.append(key)
+                accepted = True
+            except Exception as ex:
+                accepted = False
+            if accepted and not valid:
+                fails.append(Failure('oracle', f'ih3 {route} step {si}: {op} {key} was accepted', c))
+                break
+            if valid and not accepted:
+                fails.append(Failure('oracle', f'ih3 {route} step {si}: {op} {key} (new, in tree order) was refused', c))
+                break
+            if accepted:
+                ref.append(key)
+        if r % 3 == 0 and not check(f'after step {si} {op}'):
+            break
+    if not fails:
+        check('final')
+    return fails
+
+
 def cases(ctx):
+    yield from ih3_cases(ctx.rng('ih3'), 150 if ctx.tier == 'quick' else 3000)
     rng = ctx.rng('main')
     quick = ctx.tier == 'quick'
     for i in range(1500 if quick else 20000):
@@ -623,6 +742,8 @@ PENDING = []   # (case, real_steps, line, unique_lines)
 
 def evaluate(ctx, c, outs):
     ctx.count(f'history_{c["k"]}')
+    if c['k'] == 'ih3':
+        return run_ih3_history(ctx, c)
     if c['k'] == 'frame':
         h = run_frame_history(ctx, c)
         # model line for container 0
